@@ -278,3 +278,25 @@ func TestC07Syscalls(t *testing.T) {
 	}
 	hC07.Extra("syscall_sweep_cases", n)
 }
+
+// TestC07NumberSweeps: the fields whose numbers are displayed by name, with every number: every record type
+// 0..65535 as a msgtype filter (user and exclude list), every exit code -4200..4200, every file type 0..15 (as far
+// as Build takes them): whatever name the display picks for a number, the text means that number again.
+func TestC07NumberSweeps(t *testing.T) {
+	eq := uapi.A("AUDIT_EQUAL")
+	run := func(list, lhs, rhs string, field uint32, val uint32, class string) {
+		s := rulegen.Spec{List: list, Action: "always", Struct: true,
+			Filters: []rulegen.Filter{{LHS: lhs, Op: "=", RHS: []byte(rhs), Field: field, OpC: eq, Val: val, Class: class}}}
+		hC07.Eval()
+		if err := hx.Guard(propC07, s); err != nil {
+			hC07.Fail(t, "TestC07", s, "%v", err)
+		}
+	}
+	for n := 0; n < 65536; n++ {
+		run([]string{"exclude", "user"}[n%2], "msgtype", fmt.Sprint(n), uapi.A("AUDIT_MSGTYPE"), uint32(n), "msgtype-number")
+	}
+	for n := -4200; n <= 4200; n++ {
+		run("exit", "exit", fmt.Sprint(n), uapi.A("AUDIT_EXIT"), uint32(int32(n)), "exit-number")
+	}
+	hC07.Class("number-sweeps")
+}
